@@ -104,9 +104,6 @@ pub struct Uuid(pub u8);
 impl Uuid { pub fn to_string(&self) -> UuidStr { UuidStr(self.0 & 3) } }
 #[derive(Clone, Copy, Debug)]
 pub struct IndexMetadata { pub uuid: Uuid }
-/// stands for std::vec::Vec in `indexes: &Vec<IndexMetadata>` (array-backed: symbolic-length heap Vecs are expensive for CBMC)
-pub struct Vec<T> { pub items: [T; 2], pub n: usize }
-impl<'a, T> IntoIterator for &'a Vec<T> { type Item = &'a T; type IntoIter = std::slice::Iter<'a, T>; fn into_iter(self) -> Self::IntoIter { self.items[..self.n].iter() } }
 pub struct MutexGuard<'a, T>(pub &'a mut T);
 impl<'a, T> std::ops::Deref for MutexGuard<'a, T> { type Target = T; fn deref(&self) -> &T { self.0 } }
 impl<'a, T> std::ops::DerefMut for MutexGuard<'a, T> { fn deref_mut(&mut self) -> &mut T { self.0 } }
